@@ -462,6 +462,25 @@ int api_op(const char *name, int lineno)
         out_u(d.n); out_z(s && s->stream_template ? 1 : 0);
         return 1;
     }
+    if (!strcmp(name, "mktag")) { /* sid which ssrc keyidx is_rtcp | msg : the tag a holder of the stream's keys computes */
+        srtp_stream_ctx_t *st = pick_stream(ses[(int)IA[0] % MAXSES], (int)IA[1], (uint32_t)IA[2]);
+        uint8_t tag[64];
+        memset(tag, 0, sizeof tag);
+        out_z(0); out_z(0);
+        if (st && (size_t)IA[3] < st->num_master_keys && NB > 0) {
+            srtp_auth_t *a = IA[4] ? st->session_keys[IA[3]].rtcp_auth : st->session_keys[IA[3]].rtp_auth;
+            size_t tl = srtp_auth_get_tag_length(a);
+            if (a->type->id == SRTP_NULL_AUTH || tl > sizeof tag) tl = 0;
+            srtp_auth_start(a);
+            srtp_auth_compute(a, BA[0], BL[0], tag);
+            out_bytes(tag, tl);
+            save_output(lineno, tag, tl);
+        } else {
+            out_bytes(NULL, 0);
+            save_output(lineno, NULL, 0);
+        }
+        return 1;
+    }
     if (!strcmp(name, "failnth")) { fail_countdown = IA[0]; return 1; }
     if (!strcmp(name, "heap")) { /* live blocks, attempts and frees since last call, dirty frees */
         static long last_att = 0, last_free = 0;
